@@ -145,6 +145,17 @@ fn main() {
             for t in rust_dsymbols::fpgroups::cosets::coset_tables(g, &rels, k) { by[t.len()] += 1; }
             println!("{:?}", &by[1..]);
         }
+        "dupidx" => {
+            use rust_dsymbols::dsets::DSet;
+            let ds = DS::parse(&args[2]).unwrap().to_partial();
+            println!("orbit([0,1],1) = {:?}", ds.orbit([0usize, 1], 1));
+            println!("orbit([0,0,1,1],1) = {:?}", ds.orbit([0usize, 0, 1, 1], 1));
+            println!("orbit([1,0,1],1) = {:?}", ds.orbit([1usize, 0, 1], 1));
+            println!("orbit_reps([0,1],1..) = {:?}", ds.orbit_reps([0usize, 1], 1..=ds.size()));
+            println!("orbit_reps([0,1,0],[1,1,2,2,...]) = {:?}", ds.orbit_reps([0usize, 1, 0], (1..=ds.size()).flat_map(|d| [d, d])));
+            println!("traversal([0,1],[1]) = {:?}", ds.traversal([0usize, 1], [1usize]).collect::<Vec<_>>());
+            println!("traversal([0,0,1],[1,1]) = {:?}", ds.traversal([0usize, 0, 1], [1usize, 1]).collect::<Vec<_>>());
+        }
         "interesting3d" => {
             // 3D symbols of a given size whose euclidicity verdict is decided after simplification
             use rayon::prelude::*;
